@@ -160,6 +160,54 @@ def with_sg_model(ctx, pid, events, rejects, light=False):
     return events, rejects
 
 
+# ----------------------------------------------------------------------------- EnvModel: the hash-envelope life cycle as a state machine
+ENV_ALL = dict(Keys='{"k1", "k2"}', HVals='{"none", "s256", "s384", "unk", "bad"}', PctVals='{"none", "uint", "tstr", "bad"}', LocVals='{"none", "tstr", "bad"}',
+               UVals='{"none", "kid", "u258", "u259", "u260", "u3"}', PayVals='{"l32", "l48", "l31", "nil"}')
+ENV_SMALL = dict(Keys='{"k1"}', HVals='{"none", "s256", "unk", "bad"}', PctVals='{"none", "bad"}', LocVals='{"none"}', UVals='{"none", "kid", "u258"}', PayVals='{"l32", "l31", "nil"}')
+ENV_PROPS = ["EV_OnlyConforming", "EV_Producer", "EV_RoundTrip", "EV_ReadOnly", "EV_Atomic", "EV_NoHalfSigned"]
+ENV_INVS = ["EV_Agreement", "EV_UnprotectedIrrelevant", "EV_SpellingSigned"]
+
+
+def env_stage(ctx, pid):
+    """EnvModel (owner: C12): model checking to a bounded number of steps, behaviours replayed on a real Sign1Message through
+    SignHashEnvelope / VerifyHashEnvelope and the ordinary COSE_Sign1 entry points, trace validation"""
+    if pid == "C12":
+        mc(ctx, "EnvModel", cfgtext(invariants=ENV_INVS, props=ENV_PROPS, constants=dict(MaxHist=0, Record="FALSE", MaxLevel=4 if ctx.quick() else 5, **ENV_SMALL),
+                                    extra="VIEW View\nCONSTRAINT LevelBound\n"), timeout=3000, heap="8g")
+    n, depth = (250, 9) if ctx.quick() else (3000, 12)          # TLC emits every prefix of a simulated trace: about 1 500 behaviours per 50 requested
+    consts = dict(Record="TRUE", MaxLevel=0, **ENV_ALL)
+    cases = []
+    for pfx, plen in ((0, 0), (1, 1), (2, 2), (3, 2), (4, 3), (5, 4), (6, 3)):   # every single step from seven points of the life cycle
+        cases += gen(ctx, "Gen_Env", cfgtext(spec="GSpec", invariants=["Emit"], constants=dict(MaxHist=plen + 1, PrefixId=pfx, **consts)), timeout=1200, heap="8g")
+    if not ctx.quick():                                                # every pair of steps over the small constants
+        cases += gen(ctx, "Gen_Env", cfgtext(spec="GSpec", invariants=["Emit"], constants=dict(MaxHist=3, PrefixId=1, Record="TRUE", MaxLevel=0, **ENV_SMALL)), timeout=1200, heap="8g")
+    cases += gen(ctx, "Gen_Env", cfgtext(invariants=["Emit"], constants=dict(MaxHist=depth, PrefixId=0, **consts)), simulate=max(1, n // 50), depth=depth + 2, seed=ctx.seed, timeout=1200, heap="8g")
+    events = harness(ctx, ["exec", "memflow"], cases)
+    jc = "".join("CONSTANT %s = %s\n" % kv for kv in dict(MaxHist=0, Record="FALSE", MaxLevel=0, **ENV_ALL).items())
+    rej = judge(ctx, "Trace_Env", events, per_shard=400, extra_cfg=jc)
+    mine, other, impl = {}, 0, 0
+    for idx, reasons in rej.items():
+        r = [x for x in reasons if x.startswith(pid + ":") or x.startswith("infra-")]
+        impl += len([x for x in reasons if x.startswith("impl:")])
+        other += len(reasons) - len(r)
+        if r:
+            mine[idx] = r
+    ctx.notes["envmodel_behaviours_replayed"] = len(events)
+    ctx.notes["envmodel_rejections_attributed_to_other_properties"] = other
+    ctx.notes["envmodel_drift_impl_level_differences"] = impl
+    return events, mine
+
+
+def with_env_model(ctx, pid, events, rejects):
+    mev, mrej = env_stage(ctx, pid)
+    base = len(events)
+    events = events + mev
+    rejects = dict(rejects)
+    for idx, r in mrej.items():
+        rejects[base + idx] = r
+    return events, rejects
+
+
 # ----------------------------------------------------------------------------- KeyModel: the COSE_Key life cycle as a state machine
 KEY_PROPS = ["K_Permitted", "K_OwnSignatures", "K_ReadOnly", "K_Atomic"]
 KEY_INVS = ["K_RoundTrip"]
@@ -222,6 +270,8 @@ def with_model(ctx, pid, events, rejects):
         events, rejects = with_cs_model(ctx, pid, events, rejects, light=ctx.quick())
     if pid in ("C03", "C20"):                          # ... and so has the COSE_Sign life cycle
         events, rejects = with_sg_model(ctx, pid, events, rejects, light=ctx.quick())
+    if pid in ("C03", "C09"):                          # ... and the hash-envelope life cycle (what reaches the key; the message handed out)
+        events, rejects = with_env_model(ctx, pid, events, rejects)
     return events, rejects
 
 
@@ -607,6 +657,9 @@ def sessions(ctx, cases, size=150):
 # ----------------------------------------------------------------------------- C12
 @prop("C12")
 def c12(ctx):
+    if os.environ.get("VERIF_STAGE") == "env":         # debugging aid: the life-cycle stage alone
+        events, rejects = with_env_model(ctx, "C12", [], {})
+        return report(ctx, events, rejects, nontrivial=lambda e: True, key=lambda e: json.dumps(e["acts"]), rule="EnvModel stage alone (debugging aid)", exhaustive=False)
     spell = ["int64", "int", "uint16"] if ctx.quick() else ["int64", "int", "int16", "int32", "uint", "uint16", "uint32", "uint64"]
     cases = gen(ctx, "Gen_C12", cfgtext(invariants=["Emit"], constants=dict(Spellings=tlaset(spell))), timeout=3000, heap="8g")
     events = harness(ctx, ["exec", "memflow"], cases)
@@ -623,14 +676,19 @@ def c12(ctx):
     for order in (prod, prod[::-1]):
         events.extend(sessions(ctx, order, size=60))
     rejects = judge(ctx, "Trace_C12", events)
+    events, rejects = with_env_model(ctx, "C12", events, rejects)
     return report(ctx, events, rejects,
-                  nontrivial=lambda e: e["obs"][0]["res"] == "ok" if e["side"] == "producer" else e["obs"][2]["res"] == "ok",
-                  key=lambda e: json.dumps([e["side"], e["P"], e["U"], e.get("rawP"), e.get("rawU"), e.get("hp"), e.get("n")]),   # a session re-run is the same case
+                  nontrivial=lambda e: True if "acts" in e else (e["obs"][0]["res"] == "ok" if e["side"] == "producer" else e["obs"][2]["res"] == "ok"),
+                  key=lambda e: json.dumps(e["acts"]) if "acts" in e else json.dumps([e["side"], e["P"], e["U"], e.get("rawP"), e.get("rawU"), e.get("hp"), e.get("n")]),   # a session re-run is the same case
                   rule="TLC enumerates the producer grid (base header entries 1/3/4/99/258/259/260/\"x\" in either bucket under several Go spellings, caller-supplied "
                        "raw buckets, hash algorithms SHA-256/384/512 and unknown ids, digest lengths 0/size-1/size/size+1, preimage content type absent/uint/tstr/"
                        "wrongly typed, location) and the consumer grid (validly signed COSE_Sign1 with every combination of governed labels, value types and "
                        "digest lengths in either bucket); SignHashEnvelope/VerifyHashEnvelope run on the real API; TLC judges the produced bytes, the returned "
-                       "values, the caller's maps and every acceptance; non-trivial = an envelope was produced / a signed message reached VerifyHashEnvelope",
+                       "values, the caller's maps and every acceptance; non-trivial = an envelope was produced / a signed message reached VerifyHashEnvelope. "
+                       "EnvModel stage: the hash-envelope life cycle as a state machine (produce, consume, decode, verify, holder edits, re-sign, serialise, bytes "
+                       "rewritten in transit incl. a non-deterministic spelling of the protected map) is model-checked to a bounded number of steps; every single "
+                       "step from four points of the life cycle and seeded random behaviours are replayed on the real API and validated step by step by Trace_Env "
+                       "(incl. every byte string handed to a key against the Sig_structure of the received bytes)",
                   exhaustive=True)
 
 
@@ -925,6 +983,8 @@ def replay(ctx, path):
         op, prefix = "memflow", pid + ":"
         if "keymodel" in ev:
             module, kc = "Trace_Key", dict(MaxHist=0, Record="FALSE", Ktys=KEY_ALL)
+        elif "envmodel" in ev:
+            module, kc = "Trace_Env", dict(MaxHist=0, Record="FALSE", MaxLevel=0, **ENV_ALL)
         elif "sg" in ev:
             module, kc = "Trace_Sg", dict(MaxHist=0, Record="FALSE", Scope='"all"', MaxLevel=0, **SG_CONSTS)
         elif "okind" in ev:
